@@ -208,12 +208,14 @@ def lookV (t : SymTab) (x : Value) : R Value :=
 def resolveExprCore (l' r' : Value) (op : Char) (mode : Mode) : R Value :=
   let m := if l'.isExtendedLike || r'.isExtendedLike then Mode.extended else Mode.direct
   match l', r' with
-  | .numeric li _ _ _, .numeric ri _ _ _ =>
+  | .numeric lm _ _ ln, .numeric rm _ _ rn =>
+    let li : Int := if ln then -(lm : Int) else lm
+    let ri : Int := if rn then -(rm : Int) else rm
     let res : Option Int :=
-      if op == '+' then some ((li : Int) + ri)
-      else if op == '-' then some ((li : Int) - ri)
-      else if op == '*' then some ((li : Int) * ri)
-      else if op == '/' then (if ri = 0 then Option.none else some ((li / ri : Nat) : Int))
+      if op == '+' then some (li + ri)
+      else if op == '-' then some (li - ri)
+      else if op == '*' then some (li * ri)
+      else if op == '/' then (if ri = 0 then Option.none else some (Int.tdiv li ri))
       else some 0
     match res with
     | Option.none => .error .other
